@@ -72,13 +72,20 @@ func (s *socket) addPipe(tp transport.Pipe, d *dialer, l *listener) {
 
 	p.lock.Lock()
 	if p.closing {
+		// Closed (by the hook or the peer) before it was attached:
+		// remPipe will never run for it, so drop it from the list
+		// and release its ID here.
 		p.lock.Unlock()
+		s.pipes.Remove(p)
+		pipeIDs.Free(p.id)
 		return
 	}
 	if s.proto.AddPipe(p) != nil {
 		p.lock.Unlock()
 		s.pipes.Remove(p)
 		go p.close()
+		// Never attached, so remPipe will not release the ID.
+		pipeIDs.Free(p.id)
 		return
 	}
 	p.added = true
